@@ -237,6 +237,10 @@ func (g *VG) fill(v reflect.Value, opt string, key bool, depth int) {
 			f32 = 2
 		}
 		v.SetFloat(float64(f32))
+		if f32 != f32 && g.R.IntN(2) == 0 {
+			// NaNs of every payload, signalling ones included: the bit pattern is what is encoded
+			model.SetF32Bits(v, []uint32{0x7f800001, 0xff800001, 0x7fbfffff, 0x7fc00001, 0xffc12345, 0x7f812345}[g.R.IntN(6)])
+		}
 	case reflect.Float64:
 		f := g.float()
 		if key && f != f {
